@@ -11,7 +11,8 @@ CHECKS = {
              "the real per-block pipeline (optimize, re-verify, keep-or-revert) and every emitted block that differs "
              "from its input is executed against it on every state of a boundary-value state domain on a reference EVM",
         note="trusted base: mc/evm_ref.py (self-tested against z3 bit-vectors and Keccak vectors); equivalence modulo "
-             "gas metering; MSIZE/PC excluded; greedy back-end (Max-SMT path through the stand-in solver in C06/C07)",
+             "gas metering; MSIZE/PC excluded; back-ends: greedy, Max-SMT and -ub-greedy with the stand-in solver "
+             "(mc/standin.py, the model enumerator answering with a minimum-penalty model)",
         technique="bounded-exhaustive enumeration of programs x configurations x states against a reference interpreter"),
     "C02": dict(
         level="model_checking", engine="E1+E2+E4", ref="DESIGN.md section 4 C02",
@@ -45,7 +46,9 @@ CHECKS = {
         text="for every enumerated block, ALL single-point semantic mutations are generated; each pair the reference "
              "EVM distinguishes on some state of the domain is submitted to compare_asm_block_asm_format, which must "
              "not answer equal; compare(B,B) must answer equal without raising",
-        note="trusted base: mc/evm_ref.py; the forves adapter rendering is not yet checked",
+        note="trusted base: mc/evm_ref.py; the external-checker adapter is checked by comparing forves_format with an "
+             "independent rendering for every block of a prefix tree with splitting instructions and pseudo pushes, and "
+             "by running the real bin/forves-checker on a slice of distinguishable pairs",
         technique="bounded-exhaustive enumeration of block pairs (all single-point mutants) with a reference-"
                   "interpreter distinguishability oracle"),
     "C10": dict(
